@@ -833,6 +833,7 @@ class ServiceBrowser(_ServiceBrowserBase, threading.Thread):
         # to ensure that events run in the dedicated thread and do
         # not block the event loop
         self.queue: queue.SimpleQueue = queue.SimpleQueue()
+        self._cancelled_from_callback = False
         self.daemon = True
         self.start()
         zc.loop.call_soon_threadsafe(self._async_start)
@@ -846,13 +847,19 @@ class ServiceBrowser(_ServiceBrowserBase, threading.Thread):
         assert self.zc.loop is not None
         self.queue.put(None)
         self.zc.loop.call_soon_threadsafe(self._async_cancel)
+        if threading.current_thread() is self:
+            # Called from one of our own callbacks (the application closes
+            # the instance from a listener): a thread cannot wait for itself,
+            # it ends when that callback returns, delivering nothing more
+            self._cancelled_from_callback = True
+            return
         self.join()
 
     def run(self) -> None:
         """Run the browser thread."""
         while True:
             event = self.queue.get()
-            if event is None:
+            if event is None or self._cancelled_from_callback:
                 return
             self._fire_service_state_changed_event(event)
 
